@@ -3,6 +3,7 @@
 //! against /verif/spec/Trace*.tla; there is no oracle in this program.
 mod craft;
 mod drv_chains;
+mod drv_ext;
 mod drv_labels;
 mod drv_lattice;
 mod drv_rx;
@@ -58,6 +59,7 @@ fn main() {
         "interleave" => drv_rx::interleave(&mut out, seed, thorough),
         "frames" => drv_rx::frames(&mut out, seed, thorough),
         "labels" => drv_labels::run(&mut out, seed, thorough),
+        "ext" => drv_ext::run(&mut out, seed, thorough),
         "hdr" => drv_tables::hdr(&mut out),
         "extnew" => drv_tables::extnew(&mut out),
         "crc" => drv_tables::crc(&mut out, seed, thorough),
